@@ -86,6 +86,20 @@ struct Elem
     unsigned char guard[8];
 };
 #pragma pack(pop)
+#elif defined(TREE_PACK4)
+// -DTREE_PACK4: the embedded node sits at an address that is 4 modulo 8 - the AVL node documents 4-byte alignment (its parent word
+// keeps TWO tag bits), so nothing may assume the alignment of a pointer
+#pragma pack(push, 4)
+struct Elem
+{
+    int lead;
+    tnode node;
+    long key;
+    int id;
+    unsigned char guard[8];
+};
+#pragma pack(pop)
+static_assert(sizeof(Elem) % 8 == 0 && offsetof(Elem, node) == 4, "every node of the pool at 4 modulo 8");
 #else
 struct Elem
 {
@@ -708,6 +722,14 @@ struct Harness
                 }
                 gone.insert(cur);
                 poison(ELEM(cur));
+                // what is left after 1, 2 and about half of the steps is a tree the container holds (lopsided in ways no tear-down from the
+                // root produces): every iterator form works on it
+                if ((guard == 0 || guard == 1 || guard == n / 2) && gone.size() < n && iters_on(L, op, out))
+                {
+                    cls = "remainder-iteration";
+                    err = "after " + std::to_string(guard + 1) + " tear steps from an explicit starting node the iterators do not enumerate the remaining elements";
+                    break;
+                }
             }
             if (err.empty() && gone.size() != n) { cls = "short"; err = "tear-down from an explicit starting node handed out " + std::to_string(gone.size()) + " of " + std::to_string(n) + " elements"; }
             if (err.empty() && L.root.node != nullptr) { cls = "not-empty"; err = "tear-down from an explicit starting node left a non-empty tree"; }
